@@ -35,6 +35,16 @@ def normalize_types(f):
     return normalize_helper
 
 
+def _divide_by_zero(dividend, zero):
+    """
+    IEEE-754 division by a zero (which Python refuses): 0/0 and NaN/0 are NaN, anything else is an infinity whose sign
+    is the product of the signs.
+    """
+    if dividend == 0 or math.isnan(dividend):
+        return float("nan")
+    return math.copysign(float("inf"), math.copysign(1.0, dividend) * math.copysign(1.0, zero))
+
+
 class FPV:
     """A concrete floating point value. Used in the concrete backend for
     calculations.  Any use outside of claripy should use `claripy.FPV`
@@ -96,9 +106,7 @@ class FPV:
         try:
             return FPV(self.value / o.value, self.sort)
         except ZeroDivisionError:
-            if str(self.value * o.value)[0] == "-":
-                return FPV(float("-inf"), self.sort)
-            return FPV(float("inf"), self.sort)
+            return FPV(_divide_by_zero(self.value, o.value), self.sort)
 
     def __floordiv__(self, other):  # decline to involve integers in this floating point process
         return self.__truediv__(other)
@@ -133,9 +141,7 @@ class FPV:
         try:
             return FPV(o.value / self.value, self.sort)
         except ZeroDivisionError:
-            if str(o.value * self.value)[0] == "-":
-                return FPV(float("-inf"), self.sort)
-            return FPV(float("inf"), self.sort)
+            return FPV(_divide_by_zero(o.value, self.value), self.sort)
 
     def __rfloordiv__(self, other):  # decline to involve integers in this floating point process
         return self.__rtruediv__(other)
